@@ -24,6 +24,8 @@ import (
 type Term struct {
 	Param int
 	Lower bool
+	// Upper: unicode.ToUpper applied to every code point (strings.ToUpper / bytes.ToUpper)
+	Upper bool
 	// Strip, when set, means "the string with every (leftmost, non-overlapping)
 	// match of this pattern removed" (ReplaceAllString(term, "")).
 	Strip *RegexConst
@@ -241,12 +243,20 @@ func (s *Summarizer) termOf(v ssa.Value, env termEnv) (Term, bool) {
 			return Term{}, false
 		case *ssa.Call:
 			if c := x.Common(); !c.IsInvoke() {
-				if f, ok := c.Value.(*ssa.Function); ok && fnName(f) == "strings.ToLower" && len(c.Args) == 1 {
+				if f, ok := c.Value.(*ssa.Function); ok && (fnName(f) == "strings.ToLower" || fnName(f) == "bytes.ToLower") && len(c.Args) == 1 {
 					t, ok := s.termOf(c.Args[0], env)
-					if t.Strip != nil {
+					if t.Strip != nil || t.Upper {
 						return Term{}, false
 					}
 					t.Lower = true
+					return t, ok
+				}
+				if f, ok := c.Value.(*ssa.Function); ok && (fnName(f) == "strings.ToUpper" || fnName(f) == "bytes.ToUpper") && len(c.Args) == 1 {
+					t, ok := s.termOf(c.Args[0], env)
+					if t.Strip != nil || t.Lower || t.Unesc {
+						return Term{}, false
+					}
+					t.Upper = true
 					return t, ok
 				}
 				if f, ok := c.Value.(*ssa.Function); ok && fnName(f) == "html.UnescapeString" && len(c.Args) == 1 {
@@ -328,7 +338,7 @@ func constOf(v ssa.Value) (constant.Value, bool) {
 func constString(v ssa.Value) (string, bool) {
 	// a package-level string variable that only its package initialiser stores to, with a constant value
 	if u, ok := v.(*ssa.UnOp); ok && u.Op == token.MUL {
-		if g, ok := u.X.(*ssa.Global); ok && isStringish(u.Type()) {
+		if g, ok := u.X.(*ssa.Global); ok && (isStringish(u.Type()) || isByteSlice(u.Type())) {
 			if k, ok := globalStringConst(g); ok {
 				return k, true
 			}
@@ -536,6 +546,9 @@ func (s *Summarizer) callForm(call *ssa.Call, env termEnv) *Form {
 			return fUnknown("MatchString on unresolved pattern or term")
 		}
 		return atom(&LAtom{Kind: "search", Regex: rc, Term: t, Desc: fmt.Sprintf("Match(%s,%s)", rc.Name, termStr(t))})
+	case "bytes.ContainsRune", "bytes.ContainsAny", "bytes.Contains", "bytes.HasPrefix", "bytes.HasSuffix":
+		name = "strings." + strings.TrimPrefix(name, "bytes.")
+		fallthrough
 	case "strings.ContainsRune", "strings.ContainsAny", "strings.Contains", "strings.HasPrefix", "strings.HasSuffix":
 		t, ok := s.termOf(c.Args[0], env)
 		if !ok {
@@ -641,6 +654,9 @@ func termStr(t Term) string {
 	}
 	if t.Lower {
 		s = "lower(" + s + ")"
+	}
+	if t.Upper {
+		s = "upper(" + s + ")"
 	}
 	return s
 }
@@ -1244,6 +1260,7 @@ type Lang struct {
 	A     *relang.Alphabet
 	regs  []*relang.Regex
 	lower bool
+	upper bool
 	cache map[string]*relang.DFA
 	// Overapprox is set when some literal was evaluated by an
 	// over-approximating construction (strip terms).
@@ -1261,7 +1278,15 @@ func lowerMap(s int32) int32 {
 	return int32(unicode.ToLower(rune(s)))
 }
 
+func upperMap(s int32) int32 {
+	if s == relang.INV {
+		return unicode.ReplacementChar
+	}
+	return int32(unicode.ToUpper(rune(s)))
+}
+
 func (l *Lang) NeedLower() { l.lower = true }
+func (l *Lang) NeedUpper() { l.upper = true }
 
 func (l *Lang) AddSet(s *relang.Set) { l.b.AddSet(s) }
 
@@ -1319,6 +1344,9 @@ func (l *Lang) Build() {
 	if l.lower {
 		l.b.AddMap(lowerMap)
 	}
+	if l.upper {
+		l.b.AddMap(upperMap)
+	}
 	l.A = l.b.Build()
 }
 
@@ -1328,6 +1356,9 @@ func (l *Lang) Register(f *Form) error {
 	f.Atoms(func(a *LAtom) {
 		if a.Term.Lower {
 			l.NeedLower()
+		}
+		if a.Term.Upper {
+			l.NeedUpper()
 		}
 		for _, st := range []*RegexConst{a.Term.Strip, a.Term.Strip2} {
 			if st != nil {
@@ -1472,6 +1503,13 @@ func (l *Lang) Eval(f *Form) (*relang.DFA, []string, error) {
 		if t.Lower {
 			var err error
 			d, err = relang.InverseMap(d, lowerMap)
+			if err != nil {
+				return nil, err
+			}
+		}
+		if t.Upper {
+			var err error
+			d, err = relang.InverseMap(d, upperMap)
 			if err != nil {
 				return nil, err
 			}
